@@ -5,7 +5,7 @@
 // API and measures (winding numbers of sample points, exact integer predicates on output vertices, distances).
 //   kind "off"   {K, add:[[x0,y0,x1,y1]..], sub:[..], A:[pix..], vars:[{jt, ml10, seg, ds:[{d, in:[..], maybe:[..]}..]}..]}
 //   kind "sharp" {K, c:[[X,Y]..] (doubled coordinates), A, vars}
-//   kind "dec"   {K, add, sub, A, comps:[[pix..]..], n}
+//   kind "dec"   {K, add, sub, isl (added after the subtraction), A, comps:[[pix..]..], n}
 //   kind "hull"  {pts:[[x,y]..], hull:[[x,y]..] (counter-clockwise cycle or []), area2}
 //   kind "hullx" {rects:[[x0,y0,x1,y1]..], pts, hull, area2}
 //   kind "simp"  {ring:[[x,y]..], tn, td, ref:[[x,y]..], nrem}
@@ -115,6 +115,11 @@ CrossSection BuildRegion(const json& cs, long i) {
     for (auto& r : cs["add"]) a += CrossSection(Rect({r[0].get<double>(), r[1].get<double>()}, {r[2].get<double>(), r[3].get<double>()}));
   }
   if (!sub.empty()) a = a - CrossSection(sub);
+  if (cs.contains("isl") && !cs["isl"].empty()) {  // islands added after the subtraction (nested outlines)
+    Polygons isl;
+    for (auto& r : cs["isl"]) isl.push_back(RectRing(r));
+    a = a + CrossSection(isl);
+  }
   return a;
 }
 
